@@ -56,7 +56,7 @@ static void mk_entry(int i, int kind, int nfd, const char* pc) {
     if (kind == K_STD) { g_tab[i].fd = i; }
     else if (kind == K_PREOPEN) { g_tab[i].path = g_path[i] = mk_path(pc); }
     else if (kind == K_FILE) { g_tab[i].fd = nfd; g_tab[i].path = g_path[i] = mk_path(pc); }
-    else if (kind == K_DIR) { g_tab[i].fd = nfd; g_tab[i].dir = (DIR*)&g_ev_dirstream; g_tab[i].path = g_path[i] = mk_path(pc); }
+    else if (kind == K_DIR) { g_tab[i].fd = nfd; g_tab[i].dir = (DIR*)&g_ev_dirstream; g_ev_dirstream.open = 1; g_tab[i].path = g_path[i] = mk_path(pc); }
 }
 #define MK_SLOT(i, n) { ND(int, kind##i); ND(int, nfd##i); ND_ARR(char, pc##i, PLEN); \
     ASSUME(kind##i >= 0 && kind##i < K_KINDS && nfd##i >= 3); if (kind##i == K_STD) ASSUME(i < 3); \
@@ -85,7 +85,7 @@ static void mk_table_sym(size_t n, size_t capacity, U32 d) {
         if (kindd == K_STD) g_sym[d].fd = (int)d;
         else if (kindd == K_PREOPEN) g_sym[d].path = g_path_d = mk_path(pcd);
         else if (kindd == K_FILE) { g_sym[d].fd = nfdd; g_sym[d].path = g_path_d = mk_path(pcd); }
-        else if (kindd == K_DIR) { g_sym[d].fd = nfdd; g_sym[d].dir = (DIR*)&g_ev_dirstream; g_sym[d].path = g_path_d = mk_path(pcd); }
+        else if (kindd == K_DIR) { g_sym[d].fd = nfdd; g_sym[d].dir = (DIR*)&g_ev_dirstream; g_ev_dirstream.open = 1; g_sym[d].path = g_path_d = mk_path(pcd); }
         g_before_d = g_sym[d];
     }
 }
